@@ -1675,6 +1675,8 @@ func lqRunHist(id string, next lqGenFn) Case {
 	nLiq, nMove := 0, 0
 	everHeld := map[int]map[int]bool{}
 	tor := newLqTimeOracle(tags)
+	tokensInto := map[int]map[int]int64{} // target -> liquid denom redeemed into it -> the denom's end
+	liquidatedBy := map[int]bool{}
 	outOfModel := false // from the first delegate / clawback op on the history is outside the Coq model
 	for i := 0; ; i++ {
 		op, ok := next(i, pre)
@@ -1728,6 +1730,7 @@ func lqRunHist(id string, next lqGenFn) Case {
 			switch op.Op {
 			case "liq":
 				nLiq++
+				liquidatedBy[op.From] = true
 				if op.From == op.To {
 					tags["liq:to-self"] = true
 				}
@@ -1762,6 +1765,47 @@ func lqRunHist(id string, next lqGenFn) Case {
 				}
 				if op.From == op.To {
 					tags["redeem:to-self"] = true
+				}
+				if dp != nil {
+					// the target's own end against the token's, own locked coins, earlier tokens in the same account
+					if pr != nil {
+						switch {
+						case pr.End < dp.End:
+							tags["redeem:target-ends-earlier"] = true
+						case pr.End == dp.End:
+							tags["redeem:target-ends-same"] = true
+						default:
+							tags["redeem:target-ends-later"] = true
+						}
+						if lqEv(pr.Start, pr.Lock, op.T).Cmp(pr.Orig) < 0 {
+							tags["redeem:target-has-locked-coins"] = true
+						} else {
+							tags["redeem:target-nothing-locked"] = true
+						}
+						if pre.Deleg[op.To].Sign() > 0 {
+							tags["redeem:target-delegating"] = true
+						}
+					}
+					for d0, end0 := range tokensInto[op.To] {
+						if d0 == op.D {
+							continue
+						}
+						switch {
+						case end0 < dp.End:
+							tags["redeem:longer-token-after-shorter"] = true
+						case end0 > dp.End:
+							tags["redeem:shorter-token-after-longer"] = true
+						default:
+							tags["redeem:second-token-same-end"] = true
+						}
+					}
+					if tokensInto[op.To] == nil {
+						tokensInto[op.To] = map[int]int64{}
+					}
+					tokensInto[op.To][op.D] = dp.End
+					if liquidatedBy[op.To] {
+						tags["redeem:into-a-liquidator"] = true
+					}
 				}
 				if lqAcctEq(pr, post.Accts[op.To]) {
 					tags["redeem:all-past"] = true
@@ -2119,6 +2163,7 @@ func (g *lqGen) next(i int, s *lqSnap) (lqOp, bool) {
 
 // ---------------------------------------------------------------- driver
 func liquidDriver(cfg Config, out *Out) error {
+	lqStrict = cfg.Args["strict"] == "1"
 	if cfg.Replay != "" {
 		i := 0
 		return readReplayInputs(cfg.Replay, func(raw json.RawMessage) error {
